@@ -410,6 +410,7 @@ func VerifyFunction(L *Loaded, name string, ct *Contract, prop string) (res *Fun
 		}
 	}()
 	vc.safetyOn = true
+	vc.guardsOn = true
 	st := &State{reach: True, cells: map[*Cell]Term{}, heaps: map[string]Term{}, armed: map[*ssa.Defer]Term{}}
 	a0 := vc.Fresh("alloc0", SInt)
 	vc.alloc0 = a0
@@ -491,6 +492,16 @@ func VerifyFunction(L *Loaded, name string, ct *Contract, prop string) (res *Fun
 				}
 			}
 		}
+		// representation invariants of the objects this activation wrote
+		for _, k := range sortedDirty(r.st.dirty) {
+			d := r.st.dirty[k]
+			cl := L.CF.TypeInvs[d.typ]
+			p := d.ptr
+			vc.inTypeInv = true
+			g := fr.evalClauseWith(cl, func(cp ClauseParam, old bool) Val { return TV(p) }, r.st, nil)
+			vc.inTypeInv = false
+			vc.Oblige("typeinv", fmt.Sprintf("%s@ret%d.%d", d.typ, i, vc.nextCount("typeinv")), r.pos, r.st, g, "representation invariant of "+d.typ+": "+cl.Src)
+		}
 		// reachability canary
 		o := vc.Oblige("vacuity", fmt.Sprintf("reach@ret%d", i), fn.Pos(), r.st, False, "return must be reachable")
 		if o != nil {
@@ -547,6 +558,15 @@ func globalTouched(vc *VC, st *State) bool {
 		}
 	}
 	return false
+}
+
+func sortedDirty(m map[string]dirtyObj) []string {
+	var ks []string
+	for k := range m {
+		ks = append(ks, k)
+	}
+	sort.Strings(ks)
+	return ks
 }
 
 func sortObls(os []*Obligation) {
